@@ -60,9 +60,15 @@ func runC01(c *Ctx) {
 			c.Res.Notes = append(c.Res.Notes, "replay unreadable")
 			return
 		}
+		var rc struct{ Case c01RefsCase `json:"case"` }
+		if json.Unmarshal(b, &rc) == nil && rc.Case.Leg == "refs" {
+			c01Refs(c, rc.Case, true)
+			return
+		}
 		c01Batch(c, []c01Case{wrap.Case})
 		return
 	}
+	c01RefsLeg(c)
 	var cases []c01Case
 	files, _ := filepathGlob("/verif/harness/corpus/C01/*.json")
 	for _, f := range files {
@@ -97,6 +103,7 @@ func c01Batch(c *Ctx, cases []c01Case) {
 			c.Res.Add(proto.Finding{Kind: kind, Class: class, What: what, Case: cs, Impl: impl})
 		}
 		out := runGenerate(c.Work, &Program{Schema: cs.Schema, Ops: cs.Ops, Cfg: cs.Cfg}, false)
+		c01EventsModel(c, cs, out)
 		key := strings.Join(cs.Feat, ",")
 		if len(key) > 200 {
 			key = key[:200]
@@ -110,7 +117,20 @@ func c01Batch(c *Ctx, cases []c01Case) {
 			if strings.Contains(out.Err.Error(), "conflicting definition for") {
 				// names.go: a clash of generated type names is reported as an error (C09 decides that it
 				// is never resolved by wrong reuse); such name sets are outside C01's quantifier
-				c.Res.Count("excluded:name-clash-reported")
+				// ... unless the "clash" is between a place and itself: the generator converts some places more than
+				// once (a field below an abstract type, once per implementation) and must recognise its own type
+				falseClash := false
+				for _, ev := range out.Events {
+					if ev.Kind == "get:conflict" && ev.Existing && sameNeed(ev.GraphQLName, ev.Selection, ev.ExistingGraphQLName, ev.ExistingSelection) {
+						falseClash = true
+						fail("violation", "rejected: conflict-reported-for-identical-need", fmt.Sprintf("supported program rejected: a second visit of %s (%s {%s}) is reported as a conflicting definition: %s",
+							ev.GoName, ev.GraphQLName, selsString(selsFromAST(ev.Selection)), firstLine(out.Err.Error())), nil)
+						break
+					}
+				}
+				if !falseClash {
+					c.Res.Count("excluded:name-clash-reported")
+				}
 				continue
 			}
 			fail("violation", "rejected: "+errSignature(stripPos(out.Err.Error())), "supported program rejected: "+firstLine(out.Err.Error()), nil)
@@ -169,3 +189,13 @@ func c01Batch(c *Ctx, cases []c01Case) {
 var posStripRe = regexp.MustCompile(`^[^\s:]+:\d+: `)
 
 func stripPos(s string) string { return posStripRe.ReplaceAllString(s, "") }
+
+
+// c01EventsModel replays the generation's type-map accesses through the model (a visit the model
+// reuses must not be reported as a conflict by the generator, and vice versa)
+func c01EventsModel(c *Ctx, cs c01Case, out *GenOut) {
+	if len(out.Events) == 0 {
+		return
+	}
+	c09Events(c, c09Case{Leg: "c01", Seed: cs.Seed, Schema: cs.Schema, Ops: cs.Ops, Cfg: cs.Cfg}, out)
+}
